@@ -9,24 +9,45 @@ CFG = {
                    "GeoProofs/Lemmas/RelateSpecReverse.lean", "GeoProofs/Lemmas/C01QAtoms.lean",
                    "GeoProofs/Lemmas/C01QDisjoint.lean", "GeoProofs/Lemmas/C01QTypes.lean",
                    "GeoProofs/Lemmas/C01QAreal.lean", "GeoProofs/Lemmas/C01QPoint.lean",
-                   "GeoProofs/Lemmas/C01QTriangle.lean", "GeoProofs/Lemmas/C01QLine.lean"],
+                   "GeoProofs/Lemmas/C01QTriangle.lean", "GeoProofs/Lemmas/C01QLine.lean",
+                   "GeoModel/GeomGraph.lean", "GeoModel/RelateImpl.lean", "GeoModel/RelateImplNodes.lean",
+                   "GeoModel/RelateImplTop.lean", "GeoModel/F64.lean",
+                   "GeoProofs/Lemmas/RELMMono.lean", "GeoProofs/Lemmas/RELMDisjoint.lean", "GeoProofs/Lemmas/RELMSwap.lean",
+                   "GeoProofs/Lemmas/RELMAtoms.lean", "GeoProofs/Lemmas/RELMNodes.lean", "GeoProofs/Lemmas/RELMPoint.lean",
+                   "GeoProofs/Lemmas/RELMPoint2.lean", "GeoProofs/Lemmas/RELMPoint3.lean", "GeoProofs/Lemmas/RELMPoint4.lean",
+                   "GeoProofs/Lemmas/RELMPointPoint.lean", "GeoProofs/Lemmas/RELMMultiPoint.lean"],
     "rule": "ordered pairs (A, B) over all 10 geometry types (Geometry enum on both sides) drawn from one shared 3..6 grid: polyomino polygons with "
             "holes (incl. holes tangent to the shell), star polygons, rectangles with holes, corner-touching multipolygons, self-avoiding lattice "
             "paths, multi line strings sharing end points (mod-2 rule), half-grid points, same-dimension collections; each case also relates the "
             "operands in the other order and a second representation A' of A (ring start/direction, Rect/Triangle as Polygon, Line as LineString, "
             "singleton Multi*/collection, member order). Operands outside the domain (invalid by the exact Lean validity spec) are SKIPped and counted. "
-            "distinct by input text; cases with disjoint or empty bounding boxes are tagged triv and not counted.",
+            "distinct by input text; cases with disjoint or empty bounding boxes are tagged triv and not counted. "
+            "Every fourth case of the stream is C01.impl <A> <B>: the executable Lean model of the *implementation* (RelateImpl*.lean) against the real "
+            "relate, half with the generators above, half with operands outside the validity domain (self-crossing / back-tracking / collapsed line work, "
+            "random closed rings, degenerate and empty rings, overlapping members of every dimension in nested collections, zero-length Lines, wild floats "
+            "incl. subnormals); AGREE iff the model's matrix (or panic) is the implementation's, prop= is the specification's verdict inside the domain and "
+            "PASS outside. The harness reports the points line_intersection returned for the proper crossings relate can meet (within each operand, between "
+            "the operands); the model is run with these points and emulated binary64 subtraction, and in exact arithmetic (tag rounded-crossing-changes-matrix "
+            "when the two differ). SKIP near-tie:intersection-key-collision: two different points of one segment got the same (segment, rounded distance) key, "
+            "so the R-tree's visiting order decides which one an edge keeps.",
     "trusted_base": [
         "spec adequacy (S1): the arrangement atoms (vertices, elementary-edge midpoints, two infinitesimally displaced face samples per edge) meet "
         "every cell of the arrangement of A ∪ B — not proved; the spec is an independent definition (own winding computation, symbolic infinitesimals)",
         "spec adequacy (S2): for a valid ring, non-zero winding number ⇔ topological interior (Jordan)",
         "interior connectedness of polygons is not part of the executable validity predicate",
+        "model of the implementation (RelateImpl*.lean, GeomGraph.lean): hand-written from relate_operation.rs, edge_end_builder.rs, geomgraph/*.rs, "
+        "geomgraph/index/*.rs; checked against the real code on every run (C01.impl), not generated from it. It tests all segment pairs where the code asks "
+        "an R-tree for the pairs with intersecting envelopes (line_intersection answers None for the others; the recorded sets are order-independent in exact "
+        "arithmetic — argued in the file header, not proved); BTreeMap/BTreeSet are sorted association lists with the map's own linear key scan (faithful for "
+        "consistent comparators; with a zero-length Line up to 11 directions per node); robust orientation is exact; debug_asserts are not modelled",
+        "relate's float arithmetic enters the model as a parameter (crossing point of a proper intersection, coordinate subtraction): the theorems hold for "
+        "every instance, relateImpl is the exact instance, the correspondence uses the points the code computed (C11 bounds their error)",
     ],
     "assumptions": ["valid operands in the OGC sense, decided exactly by GeoModel/Valid.lean; grid coordinates (exact in f64)"],
 }
 
 MANIFEST = {
-    "technique": "Lean 4 executable DE-9IM specification with proved matrix algebra + implementation-vs-specification correspondence on grid geometry pairs",
+    "technique": "Lean 4 executable DE-9IM specification with proved matrix algebra + executable Lean model of the topology-graph implementation with proved structural laws + implementation-vs-specification and implementation-vs-model correspondence on grid geometry pairs",
     "text": "relate() is compared, cell for cell, with an executable specification of DE-9IM written in Lean (exact point location with the mod-2 rule, "
             "arrangement atoms with symbolic infinitesimal face samples) that shares no code or algorithm with geo's topology-graph implementation; the same "
             "run demands the transposed matrix for swapped operands and the same matrix for a second representation of the same point set. Proved for all "
@@ -71,7 +92,34 @@ MANIFEST = {
             "the segments share more than one point (relateSpec_line_line_ii, relateSpec_line_line_ii_one, via li_single_exact / li_collinear_exact and "
             "exists_atom_between: between two vertices on a segment lies an elementary sub-segment midpoint). Not proved: DimsSpec for polygons without the "
             "interior-sample hypothesis and for collections; cell_complete beyond the forms in (8). The adequacy of the "
-            "specification w.r.t. point-set topology in general remains an explicit assumption (S1, S2), not a theorem.",
+            "specification w.r.t. point-set topology in general remains an explicit assumption (S1, S2), not a theorem. "
+            "(9) the implementation itself: relateImpl (GeoModel/RelateImpl.lean, RelateImplNodes.lean, RelateImplTop.lean, on top of the C17 graph "
+            "construction GeomGraph.lean) mirrors RelateOperation::compute_intersection_matrix statement by statement — envelope test and compute_disjoint, "
+            "GeometryGraph::new for both operands, compute_self_nodes (is_rings by geometry type, SegmentIntersector incl. is_trivial_intersection as "
+            "written, Edge::add_intersection with segment-index normalisation and compute_edge_distance, add_self_intersection_nodes), "
+            "compute_edge_intersections (isolated flags, proper / proper-interior flags against the boundary nodes), compute_intersection_nodes (mod-2 "
+            "toggling), copy_nodes_and_labels, label_isolated_nodes / _edges through coordinate_position (GeoModel/Locate.lean), "
+            "compute_proper_intersection_im, EdgeEndBuilder (prev/next stubs), EdgeEnd ordering (quadrant, then orientation), EdgeEndBundle::into_labeled "
+            "(compute_label_on / _side), EdgeEndBundleStar (propagate_side_labels, the dimensional-collapse flag as the loop leaves it, fill from "
+            "coordinate_position), update_intersection_matrix; panics of the code are none. Checked against the real relate on every run (C01.impl: valid "
+            "and invalid operands, zero DIFF). Proved about it, for all inputs and every float-arithmetic instance unless said otherwise: matrix cells only "
+            "ever increase and EE = 2 (impl_*_monotone, relateImpl_ge_proper, relateImplWith_ee, relateImpl_ee); the result is the cell-wise maximum over "
+            "the contributions of the proper-intersection shortcut, isolated edges, nodes and edge-end bundles — the same fold as the specification's "
+            "(relateImpl_eq_fold, relateImpl_cell); the disjoint-envelope shortcut (relateImpl_disjoint_shortcut) is sound: = relateSpec for operands whose "
+            "coordinates lie in their reported rectangles, proved for every type without hole coordinates, empty operands included "
+            "(relateImpl_disjoint_eq_spec_partial, _noInteriors; inherits DimsSpec); label-swap invariance: the graph a prepared geometry hands out "
+            "(clone_for_arg_index of the cache self-noded for index 0) is the freshly built and self-noded graph in either operand position, hence prepared "
+            "path = plain path (preparedGraph_eq_fresh, relatePrepared_eq_plain, selfNoding_keeps_labels; on C17's swap_buildGraph / swap_selfNodes); "
+            "Point x Point and MultiPoint x MultiPoint (all coordinate lists): relateImpl = relateSpec (relateImpl_point_point, "
+            "relateImpl_multiPoint_multiPoint); Point x any geometry B, valid or not: row Boundary is F and row Interior has a single 0 in the column of the "
+            "position the node map records for the point, which is B.coordinate_position(p) whenever p is not a node of B's graph, hence the rows of the "
+            "specification wherever coordinate_position = locate (relateImpl_point_rows, _isolated, relateImpl_point_rows_eq_spec_partial; via the sorted node "
+            "map, slot independence of the label operations and 'every component of B ends up Outside of a point'); the transpose law is false of the code "
+            "as written for invalid input: a zero-length Line makes a zero-length edge end whose key compares Equal to every key, so the bundles depend on "
+            "insertion order (relateImpl_transpose_fails_witness: triangle x zero-length Line at a vertex, FF21F1FF2 vs 10FFFF2F2, the real code agrees). Not "
+            "proved: relateImpl = relateSpec on the validity domain in general (Line x Line and beyond), the transpose law for valid operands.",
     "note": "Trusted: Lean kernel + audited axioms; the harness/generators (sampling); spec adequacy S1/S2. Defects found by this check and repaired in /repo: "
-            "Triangle vertical edge (29720670), MultiPolygon shared vertex (5f41a6da), MultiLineString boundary_dimensions mod-2 (17c66966).",
+            "Triangle vertical edge (29720670), MultiPolygon shared vertex (5f41a6da), MultiLineString boundary_dimensions mod-2 (17c66966). The algorithm of "
+            "relate is now modelled (relateImpl) and compared with the code on valid and invalid operands; K10 as seen from relate (subnormal coordinate: two "
+            "crossing valid segments reported disjoint) is an open known finding outside the property's stated domain.",
 }
